@@ -79,6 +79,7 @@ def exact_space(case):
             corners = [h for h in basis if all(k == 0 for k in h[1])]
             rest = [h for h in basis if any(k != 0 for k in h[1])]
             pick = sorted(r.choice(len(rest), size=min(len(rest), int(case["basis_sample"])), replace=False).tolist())
+            case["_full_basis"] = list(basis)     # the combination of ALL functions (build_comps) still runs over the whole space
             basis = corners + [rest[i] for i in pick]
         return "hat", basis
     subsets = [list(S) for r in range(d + 1) for S in itertools.combinations(range(d), r)]
@@ -91,7 +92,10 @@ def build_comps(case):
     r = np.random.RandomState(case["combo_seed"] % (2 ** 32))
     combos = []
     # one combination of ALL exact functions (coefficients bounded away from 0: a single lost function is always visible), two of 6
-    combos.append(["lincomb", [round(float(x), 4) for x in r.choice([-1, 1], len(basis)) * r.uniform(0.25, 1, len(basis))], list(basis)])
+    full = case.pop("_full_basis", None) or basis
+    if len(full) > 400:      # very large initial levels: the all-functions combination stays on the sample (cost)
+        full = basis
+    combos.append(["lincomb", [round(float(x), 4) for x in r.choice([-1, 1], len(full)) * r.uniform(0.25, 1, len(full))], list(full)])
     for _ in range(2):
         n = min(len(basis), 6)
         pick = sorted(r.choice(len(basis), size=n, replace=False).tolist())
@@ -232,6 +236,14 @@ def core_configs(ctx):
     region coarse in all dimensions at once)."""
     rng = ctx.rng
     out = []
+    # d = 3 with (lmin, lmax) = (1, 3) and a refinement depth that DEcreases with the dimension (a ridge: steep in x0, mild in x1, flat in x2): the states
+    # [4,4,3] .. [6,4,3] in which a dimension can absorb fewer coarsenings than the one before it (seed C04_4: closed form of the version-6 partial sum)
+    for vi, version in enumerate((6, 7, 8)):
+        if ctx.quick() and version != 6:
+            continue
+        cfg = {"strategy": "dimwise", "a": [-1.0, 0.5, 2.0], "b": [2.0, 1.5, 5.0], "norm": "inf", "grid": {"type": "GlobalTrapezoidal", "boundary": True},
+               "opts": {"version": version, "rebalancing": False}}
+        out.append((cfg, (1, 3), ["gauss", [400.0, 40.0, 0.0], [0.23, 0.71, 0.4]], {"basis_sample": 10, "max_steps": 7, "all_stops": True}))
     for vi, version in enumerate((6, 2, 3, 7, 8)):
         for boundary in (True, False):
             d = 2
@@ -299,17 +311,22 @@ def run(ctx):
         ctx.case(case, nontrivial=True)
         check_stop(ctx, case)
     while True:
-        todo = [(c, lm, drv) for c, lm, drv in core_configs(ctx)] + [(c, lm, None) for c, lm in gen_configs(ctx, 18 if quick else 70)]
-        for cfg, (lmin, lmax), drv in todo:
+        todo = list(core_configs(ctx)) + [(c, lm, None) for c, lm in gen_configs(ctx, 18 if quick else 70)]
+        for item in todo:
+            cfg, (lmin, lmax), drv = item[:3]
+            extra = item[3] if len(item) > 3 else {}
             if ctx.out_of_time(0.85):
                 break
             d = len(cfg["a"])
             base = {"cfg": cfg, "lmin": lmin, "lmax": lmax, "driver": drv or gen_driver(ctx, d), "combo_seed": ctx.rng.randrange(10 ** 6),
                     "probe": probe_points(ctx, cfg["a"], cfg["b"], lmax)}
+            if "basis_sample" in extra:
+                base["basis_sample"] = extra["basis_sample"]
+            max_steps = extra.get("max_steps", 8 if d == 2 else 4)
             ctx.case(dict(base, kind="scout"), nontrivial=False)
             npts = None
             try:
-                npts = scout(base, 8 if d == 2 else 4)
+                npts = scout(base, max_steps)
             except Exception:
                 npts = None  # reported by the first stop below (fresh run with a guard of its own)
             if not npts:
@@ -318,7 +335,7 @@ def run(ctx):
                 check_stop(ctx, case)
                 continue
             stops = [j for j in range(len(npts)) if j == 0 or npts[j] > max(npts[:j])]
-            if quick and len(stops) > 4:
+            if quick and len(stops) > 4 and not extra.get("all_stops"):
                 mid = ctx.rng.sample(stops[1:-1], 2)
                 stops = sorted(set([stops[0], stops[-1]] + mid))
             for j in stops:
